@@ -49,8 +49,8 @@ def norm(rec):
     if o and isinstance(o.get("dec"), dict):
         res = o["dec"].get("res", [])
         o["decs"] = [r.get("m", []) if r.get("r") == "msg" else [-1] for r in res]   # [-1]: decoder error
-        if o["dec"].get("guards") == 0 or o["dec"].get("wr_outside"):
-            o["guards"] = 0
+        o["dec_guards"] = o["dec"].get("guards")
+        o["dec_margin"] = o["dec"].get("wr_margin")
         o["dec_last"] = o["dec"].get("last")
         del o["dec"]
     return rec
